@@ -30,39 +30,74 @@ WEAK_EXPECT = {"anyInitialized": "Inv_C08_DeleteAfterAllInitialized", "vanishedC
 
 
 def closed_models(run):
+    """All TLC runs on the closed model, three at a time (each on its own copy of `run`: vlib numbers its TLC scratch
+    directories with a per-object counter)."""
+    import concurrent.futures as cf
+    import copy
+    import threading
     thorough = run.tier == "thorough"
-    r = run.closed_model("Orchestration", "Orchestration_MC.cfg", workers=8, heap="4g", coverage=True, timeout=1500)
-    if r.coverage_zero:
-        raise vlib.InfraError("vacuous closed model Orchestration, actions never taken: %s" % r.coverage_zero)
-    # the statement itself on the code as it is: TLC must reproduce the lead (F-C08-1); with the fix it holds
-    lead = run.tlc("Orchestration", "Orchestration_Lead.cfg", workers=4, heap="3g", expect_violation=True)
-    if lead.violated != "Inv_C08_NoDeleteAfterFailure":
-        raise vlib.InfraError("the model of queue.go as it is no longer reproduces F-C08-1 (delete, then timeout rollback)")
-    run.notes.append("model of queue.go as it is (CodeMode=code) violates Inv_C08_NoDeleteAfterFailure without any fault: F-C08-1")
-    run.closed_model("Orchestration", "Orchestration_FixedPure.cfg", workers=8, heap="4g", timeout=1500)
-    run.closed_model("Orchestration", "Orchestration_Live.cfg", workers=4, heap="3g", timeout=1500)
-    if thorough:
-        run.closed_model("Orchestration", "Orchestration_Fixed.cfg", workers=8, heap="4g", timeout=1500)
-        run.closed_model("Orchestration", "Orchestration_MC2.cfg", workers=12, heap="6g", timeout=3000)
-    else:
+    lock = threading.Lock()
+    rejected = []
+    if not thorough:
         # two commands, quick: no fault, no restart (the exhaustive two-command model with one fault and one restart is the thorough tier)
         cfg = open(os.path.join(run.specdir, "Orchestration_MC2.cfg")).read().replace("MaxFaults = 1", "MaxFaults = 0").replace(
             "MaxRestarts = 1", "MaxRestarts = 0")
         open(os.path.join(run.specdir, "Orchestration_MC2q.cfg"), "w").write(cfg)
-        run.closed_model("Orchestration", "Orchestration_MC2q.cfg", workers=8, heap="4g", timeout=1500)
-    rejected = []
-    for cfg in sorted(glob.glob(os.path.join(run.specdir, "Orchestration_Weak_*.cfg"))):
-        name = os.path.basename(cfg)[len("Orchestration_Weak_"):-4]
-        w = run.tlc("Orchestration", os.path.basename(cfg), workers=2, heap="2g", expect_violation=True)
-        if w.violated != WEAK_EXPECT.get(name):
-            raise vlib.InfraError("spec mutation %s not rejected by TLC as expected (got %s)" % (name, w.violated))
-        rejected.append(name)
-    w = run.tlc("Orchestration", "Orchestration_WeakLive_noUnmark.cfg", workers=2, heap="2g", expect_violation=True)
-    if "Live_C08_RolledBack_T was violated" not in w.stdout:
-        raise vlib.InfraError("spec mutation noUnmark does not violate the liveness property")
-    rejected.append("live:noUnmark")
-    run.notes.append("spec mutations rejected by TLC: " + ", ".join(rejected))
-    run.extra_cov["spec_mutations_rejected"] = rejected
+
+    def mc(r):
+        x = r.closed_model("Orchestration", "Orchestration_MC.cfg", workers=6, heap="4g", coverage=True, timeout=1500)
+        if x.coverage_zero:
+            raise vlib.InfraError("vacuous closed model Orchestration, actions never taken: %s" % x.coverage_zero)
+
+    def lead(r):
+        # the statement itself on the code as it is: TLC must reproduce the lead (F-C08-1); with the fix it holds
+        x = r.tlc("Orchestration", "Orchestration_Lead.cfg", workers=2, heap="2g", expect_violation=True)
+        if x.violated != "Inv_C08_NoDeleteAfterFailure":
+            raise vlib.InfraError("the model of queue.go as it is no longer reproduces F-C08-1 (delete, then timeout rollback)")
+        r.notes.append("model of queue.go as it is (CodeMode=code) violates Inv_C08_NoDeleteAfterFailure without any fault: F-C08-1")
+
+    def weak(name):
+        def f(r):
+            x = r.tlc("Orchestration", "Orchestration_Weak_%s.cfg" % name, workers=2, heap="2g", expect_violation=True)
+            if x.violated != WEAK_EXPECT.get(name):
+                raise vlib.InfraError("spec mutation %s not rejected by TLC as expected (got %s)" % (name, x.violated))
+            with lock:
+                rejected.append(name)
+        return f
+
+    def weaklive(r):
+        x = r.tlc("Orchestration", "Orchestration_WeakLive_noUnmark.cfg", workers=2, heap="2g", expect_violation=True)
+        if "Live_C08_RolledBack_T was violated" not in x.stdout:
+            raise vlib.InfraError("spec mutation noUnmark does not violate the liveness property")
+        with lock:
+            rejected.append("live:noUnmark")
+
+    def model(cfg, workers, heap="4g", timeout=1500):
+        return lambda r: r.closed_model("Orchestration", cfg, workers=workers, heap=heap, timeout=timeout)
+    jobs = [mc, lead, model("Orchestration_FixedPure.cfg", 6), model("Orchestration_Live.cfg", 4, "3g")]
+    if thorough:
+        jobs = [model("Orchestration_MC2.cfg", 10, "6g", 3000)] + jobs + [model("Orchestration_Fixed.cfg", 6)]
+    else:
+        jobs.append(model("Orchestration_MC2q.cfg", 6))
+    names = sorted(os.path.basename(c)[len("Orchestration_Weak_"):-4] for c in glob.glob(os.path.join(run.specdir, "Orchestration_Weak_*.cfg")))
+    if set(names) != set(WEAK_EXPECT):
+        raise vlib.InfraError("spec mutation configs and expectations differ: %s" % sorted(set(names) ^ set(WEAK_EXPECT)))
+    jobs += [weak(n) for n in names] + [weaklive]
+    subs = []
+
+    def runjob(ij):
+        i, job = ij
+        r = copy.copy(run)          # shares notes / models lists, own counters
+        r._tlc_n = 100 * (i + 1)
+        r.states = r.transitions = 0
+        subs.append(r)
+        job(r)
+    with cf.ThreadPoolExecutor(max_workers=3) as ex:
+        list(ex.map(runjob, enumerate(jobs)))
+    run.states += sum(r.states for r in subs)
+    run.transitions += sum(r.transitions for r in subs)
+    run.notes.append("spec mutations rejected by TLC: " + ", ".join(sorted(rejected)))
+    run.extra_cov["spec_mutations_rejected"] = sorted(rejected)
 
 
 def model_behaviours(run, rng):
@@ -84,7 +119,7 @@ def model_behaviours(run, rng):
 def systematic(run, rng):
     base = [(n, st, None) for n, st in oc.base_paths() + oc.two_command_paths()] + oc.round_paths() + oc.extra_paths()
     probe = [oc.scenario("base:" + n, st, {"kind": "base"}, log_reads=True, nodes_mut=mut) for n, st, mut in base]
-    files = oc.record(run, probe, prefix="probe", procs=PROCS[run.tier])
+    files = oc.record(run, probe, prefix="probe", procs=6)
     calls = {}
     for f in files:
         calls.update(oc.enumerate_calls(f))
@@ -117,8 +152,11 @@ def check(run):
                 "controller step, a transient fault, a persistent fault and a crash at that call, and a restart between any two "
                 "steps; each replayed on the real Queue.StartCommand / Queue.Reconcile / Controller.Reconcile; non-trivial = the "
                 "real trace contains a candidate delete, a failed / refused / interrupted action or a second command")
+    import time
+    t0 = time.time()
     rng = random.Random(run.seed * 104729 + 8)
     sel, scen_model = model_behaviours(run, rng)
+    t_gen = time.time() - t0
     # the closed-model runs (TLC) proceed in a background thread while the behaviours are replayed on the real code
     import threading
     bg = {"err": None}
@@ -135,14 +173,20 @@ def check(run):
         th = threading.Thread(target=models)
         th.start()
     try:
+        t1 = time.time()
         scen_sys, probe_files = systematic(run, rng)
+        t_probe = time.time() - t1
         scen = scen_model + scen_sys
+        t1 = time.time()
         files = oc.record(run, scen, procs=PROCS[run.tier])
+        t_rec = time.time() - t1
+        t1 = time.time()
     finally:
         if th is not None:
             th.join()
     if bg["err"] is not None:
         raise bg["err"]
+    t_wait = time.time() - t1
     summ = oc.summarise(files)
     if len(summ) != len(scen):
         raise vlib.InfraError("trace count mismatch: %d traces for %d scenarios" % (len(summ), len(scen)))
@@ -167,8 +211,12 @@ def check(run):
     run.extra_cov["guarded_event_counts"] = dict(stats)
     if not stats["deletes"] or not stats["failed"] or not stats["startFailed"] or not stats["cuts"]:
         raise vlib.InfraError("vacuous run: guarded events missing %s" % dict(stats))
-    run.validate("Orchestration_Trace", "Orchestration_Trace.cfg", files + probe_files, heap="2g", par=8 if run.tier == "quick" else 12,
+    t1 = time.time()
+    run.validate("Orchestration_Trace", "Orchestration_Trace.cfg", files + probe_files, heap="2g", par=min(vlib.NCPU, 16),
                  timeout=2400)
+    run.notes.append("phases: generate %.0fs, probe (build + fault-free paths) %.0fs, replay %.0fs, waiting for closed models %.0fs, "
+                     "trace validation %.0fs" % (t_gen, t_probe, t_rec, t_wait, time.time() - t1))
+    run.exhaustive = run.tier == "thorough"   # thorough replays every call-position variant of every base path
     run.samples = [{"scenario": scen[i]["name"], "steps": scen[i]["osteps"]} for i in (0, len(scen_model), len(scen) // 2, len(scen) - 1)]
     run.assumptions += [
         "controller-runtime fake client + harness choke point stand in for the API server; a crash at call n = every later call "
